@@ -107,8 +107,10 @@ CHECKS['C02'] = dict(
     text=('Inv is re-established at every push site of the search loop: span inside the sentence, children adjacent and their union is the new span, left/right are '
           'the combined items, the category is the k-th result of the callback for the children\'s categories, goal items only for full-span items with an allowed root, '
           'unary steps not at the root of a multi-word sentence, leaf items only from the beam loop; index bounds and no unsigned wrap. '
-          'Tree reconstruction in parsing.pyx (retrieve_tree/run) is covered by the BOUNDED run on the DePyx text.'),
-    design_ref='DESIGN.md section 4, C02', note=TB_CXX + '; retrieve_tree only bounded',
+          'Python half (parsing.pyx, verified on its mechanically extracted DePyx text with PyVC): retrieve_tree by structural induction over the item (leaves carry the tokens in order, every node the category '
+          'its id stands for, labels from the cache entry of the children ids and the rule index, stack frame), scaffold, the two callbacks and the id table (invariant, ids only grow). '
+          'The rest of run (sentence loop, pairing of trees and scores) is covered by the BOUNDED run on the DePyx text.'),
+    design_ref='DESIGN.md section 4, C02', note=TB_CXX + '; views of C-level values in parsing.pyx assumed; rest of run bounded',
     technique='contract-based deductive verification: CxxVC invariant rule + z3; bounded real-code run for the pyx half',
 )
 CHECKS['C01'] = dict(
@@ -128,7 +130,8 @@ CHECKS['C12'] = dict(
     text=('Parser half: at every push site the stored rule_id is the index k of the very result being iterated and the head is taken per that result\'s head flag (CxxVC). '
           'Reader half: guess_combinator_by_triplet is proved by a find-first loop rule for an arbitrary rule function (first rule deriving the target, else unk) and every '
           'call site passes rule.op_string / rule.op_symbol / the right head source to Tree.make_binary with matching arity (ast data-flow obligations). '
-          'BOUNDED: labels/head flags of trees returned by the real parser (DePyx text) for grammars with distinct labels.'),
+          'parsing.pyx (DePyx text, PyVC): scaffold copies the k-th result field by field, the callbacks number the results by their position (rule_id = k), retrieve_tree takes label, symbol and head flag '
+          'from cache[(children ids)][rule_id]. BOUNDED: labels/head flags of trees returned by the real parser (DePyx text) for grammars with distinct labels.'),
     design_ref='DESIGN.md section 4, C12', note=TB_CXX + '; ' + TB_PY,
     technique='contract-based deductive verification: CxxVC + PyVC loop rule + ast call-site obligations; bounded real-code run',
 )
@@ -263,7 +266,7 @@ def main():
                            'parsing.h with g++ themselves (vc/harness.py) and set DEPCCG_VERIF=1 for the bounded C01 run; the deductive obligations do not use it'),
                    baseline_off_cmd='cd /repo && env -u DEPCCG_VERIF /venv/bin/python -m pytest -ra -q -p no:cacheprovider --timeout=900 --continue-on-collection-errors',
                    source_commits=['0b0a8cf'], add_only=True),
-        engines=[dict(name='pyvc', path='/verif/vc/pyvc.py', serves_properties=['C03', 'C04', 'C05', 'C06', 'C07', 'C08', 'C11', 'C12', 'C13', 'C14', 'C15', 'C17', 'C20'],
+        engines=[dict(name='pyvc', path='/verif/vc/pyvc.py', serves_properties=['C02', 'C03', 'C04', 'C05', 'C06', 'C07', 'C08', 'C11', 'C12', 'C13', 'C14', 'C15', 'C17', 'C20'],
                       kind_free_text='verification-condition generator (symbolic execution of the python ast of the real source, sidecar contracts in /verif/contracts) + z3/cvc5'),
                  dict(name='cxxvc', path='/verif/vc/cxxvc.py', serves_properties=['C01', 'C02', 'C09', 'C10', 'C11', 'C12', 'C16'],
                       kind_free_text='verification-condition generator over clang\'s JSON AST of depccg/parsing.h (invariant rule over the search loop) + z3/cvc5'),
